@@ -129,13 +129,17 @@ def _gen_config(incdir):
 
 
 def _prune(base, keep):
-    """keep disk use bounded: remove C build dirs of older tree hashes."""
+    """keep disk use bounded: remove C build dirs of older tree hashes (never one used within the last hour)."""
     try:
         ds = sorted((os.path.getmtime(os.path.join(base, d)), d) for d in os.listdir(base))
     except FileNotFoundError:
         return
-    for _, d in ds[:-keep] if len(ds) > keep else []:
-        shutil.rmtree(os.path.join(base, d), ignore_errors=True)
+    now = time.time()
+    for mt, d in ds[:-keep] if len(ds) > keep else []:
+        # a directory touched within the last hour may be in use by a check running at the same time against another
+        # tree (build_lib touches the directory on every use): never remove it
+        if now - mt > 3600:
+            shutil.rmtree(os.path.join(base, d), ignore_errors=True)
 
 
 def cdir(flavor):
